@@ -253,6 +253,7 @@ func init() {
 		cs = append(cs, reentrantCases(r, st, sizes(tier, 210, 4200), "re")...)
 		cs = append(cs, staleBindingCases(r, st, sizes(tier, 120, 1200), "sb")...)
 		cs = append(cs, ambiguousBackrefCases(st, "ab")...)
+		cs = append(cs, namedScopeCases(st, "ns")...)
 		return append(cs, bindFailCases(r, st, sizes(tier, 700, 15000), "b")...)
 	}
 	propGens["C03"] = func(r *rand.Rand, tier string, st *Stats) []Case {
@@ -281,6 +282,7 @@ func init() {
 		cs = append(cs, declOrderCases(r, st, sizes(tier, 300, 4000))...)
 		cs = append(cs, shadowCases(st)...)
 		cs = append(cs, numericTextCases(st)...)
+		cs = append(cs, loopFlowCases(st)...)
 		return append(cs, withNameCases(r, st, sizes(tier, 400, 8000))...)
 	}
 	propGens["C09"] = func(r *rand.Rand, tier string, st *Stats) []Case {
@@ -473,6 +475,40 @@ func numericTextCases(st *Stats) []Case {
 				st.Features["transform-number-of-noncanonical-digits"]++
 				out = append(out, Case{ID: fmt.Sprintf("nt%d", i), Op: "run", Fields: []string{hx(src), hx(text)}, Meta: map[string]string{}})
 			}
+		}
+	}
+	return out
+}
+
+// loopFlowCases: transforms whose control flow leaves a loop (break / continue / return) and then goes on — nested
+// loops, a loop inside an if branch with statements after it, a loop followed by if / loop bodies of several
+// statements, two loops in a row.  What a loop hands to the statement after it must be "carry on".
+func loopFlowCases(st *Stats) []Case {
+	bodies := []string{
+		// nested: the inner break must not end the outer loop
+		"set r to '' set i to 0 loop if i >= 3 then break end set i to i + 1 set j to 0 loop if j >= i then break end set j to j + 1 set r to r + 'a' end set r to r + '|' end return r",
+		// loop inside an if branch, statements after it in the same branch
+		"set r to 'x' if matchLength > 0 then set i to 0 loop if i >= 2 then break end set i to i + 1 end set r to r + i set r to r + '!' end return r + match",
+		// top-level loop, then an if whose body has several statements
+		"set i to 0 loop if i >= matchLength then break end set i to i + 1 end set r to '' if i > 0 then set r to r + 'p' set r to r + 'q' set r to r + i end return r",
+		// two loops in a row, the second must run all its iterations
+		"set i to 0 loop if i >= 2 then break end set i to i + 1 end set k to 0 set r to '' loop if k >= 3 then break end set k to k + 1 set r to r + k end return r + '/' + i",
+		// continue, then the statements of the next iteration
+		"set i to 0 set r to '' loop set i to i + 1 if i > 4 then break end if i % 2 == 0 then continue end set r to r + i end return r",
+		// continue in an inner loop, break in the outer one
+		"set i to 0 set r to '' loop set i to i + 1 if i > 2 then break end set j to 0 loop set j to j + 1 if j > 3 then break end if j == 2 then continue end set r to r + j end set r to r + ';' end return r",
+		// break inside else, statements after the loop inside a later loop body
+		"set i to 0 loop if i < 2 then set i to i + 1 else break end end set r to '' set k to 0 loop if k >= 2 then break end set r to r + match set k to k + 1 end return r + i",
+		// return from inside a loop inside an if
+		"if matchLength > 1 then set i to 0 loop set i to i + 1 if i == matchLength then return 'L' + i end end end return 'S' + match",
+	}
+	texts := []string{"ab c defgh ij klm", "x yy zzz"}
+	out := []Case{}
+	for bi, b := range bodies {
+		for ti, text := range texts {
+			src := "set t to transform\n  " + b + "\nend\nreplace all (at least 1 letter) = w with '<' w ':' t '#' matchNumber '>'"
+			st.Features["transform-loop-flow"]++
+			out = append(out, Case{ID: fmt.Sprintf("lf%d.%d", bi, ti), Op: "run", Fields: []string{hx(src), hx(text)}, Meta: map[string]string{}})
 		}
 	}
 	return out
